@@ -211,6 +211,23 @@ class PCSO(PUSO):
         """
         PCBO.update(self, *args, **kwargs)
 
+    def __imul__(self, other):
+        """__imul__.
+
+        Keeps the recorded constraints and the ancilla counter, see
+        ``PCBO.__imul__``.
+
+        Parameters
+        ----------
+        other : a dict or number.
+
+        Returns
+        -------
+        self.
+
+        """
+        return PCBO.__imul__(self, other)
+
     @property
     def constraints(self):
         """constraints.
